@@ -566,3 +566,9 @@ class C10(Check):
         return dict(arrangement=inp.get('arrangement'), switches=case['switches'], executed_order=order,
                     observed=observed, each_application_alone=alone,
                     verdict=('differs: %s' % (bad,) if bad else 'every application sees what it sees alone'))
+
+
+# the class / configuration machinery every application is built on (SimpleConfig, NameSpace, cached_property, proxy,
+# MixableMeta, Ombott.__init__ / setup, BaseRequest.__new__ / setup / copy): an extra correspondence stream and oracle
+from harness import configlib as _config  # noqa: E402
+_config.install(C10)
